@@ -36,6 +36,8 @@ type job struct {
 	Shapes   string `json:"shapes"`   // e.g. "L1" or "L1+T1"
 	Batch    int    `json:"batch"`
 	Conc     int    `json:"conc"`
+	Free     bool   `json:"free"`  // step boundaries are free switches (all step-granular interleavings at bound 0)
+	Total    int    `json:"total"` // bound on deviations per execution
 }
 
 type c18Case struct {
@@ -125,20 +127,20 @@ func jobs(thorough bool) []job {
 		js = append(js, job{Scenario: "a", Shapes: "L1", Batch: 4, Conc: 4})
 		js = append(js,
 			job{Scenario: "b", Shapes: "L1+T1", Batch: 2, Conc: 1}, job{Scenario: "b", Shapes: "T1+R1", Batch: 2, Conc: 1},
-			job{Scenario: "b", Shapes: "L1+L1", Batch: 2, Conc: 1}, job{Scenario: "b", Shapes: "L1+TR1", Batch: 4, Conc: 2},
+			job{Scenario: "b", Shapes: "L1+L1", Batch: 2, Conc: 1}, job{Scenario: "b", Shapes: "R1+TR1", Batch: 4, Conc: 2},
 			job{Scenario: "c", Shapes: "L1+T1", Batch: 2, Conc: 1},
-			job{Scenario: "d", Shapes: "L1+T1", Batch: 2, Conc: 1}, job{Scenario: "d", Shapes: "T1+R1", Batch: 2, Conc: 1})
+			job{Scenario: "d", Shapes: "L1+T1", Batch: 2, Conc: 1})
 		return js
 	}
 	for _, sh := range []string{"L1", "T1", "R1", "TR1"} {
 		for _, cc := range []int{2, 3, 4} {
-			js = append(js, job{Scenario: "a", Shapes: sh, Batch: 4, Conc: cc})
+			js = append(js, job{Scenario: "a", Shapes: sh, Batch: 4, Conc: cc, Total: 2})
 		}
 	}
 	pairs := []string{"L1+L1", "L1+T1", "T1+R1", "L1+TR1", "T1+T1", "R1+TR1", "L1+R1"}
 	for _, sc := range []string{"b", "c", "d"} {
-		for _, p := range pairs {
-			js = append(js, job{Scenario: sc, Shapes: p, Batch: 2, Conc: 1}, job{Scenario: sc, Shapes: p, Batch: 4, Conc: 2})
+		for i, p := range pairs {
+			js = append(js, job{Scenario: sc, Shapes: p, Batch: 2, Conc: 1, Free: sc == "b" && i < 3}, job{Scenario: sc, Shapes: p, Batch: 4, Conc: 2})
 		}
 	}
 	return js
@@ -232,7 +234,11 @@ func body(w *world.W, j job, p *prep) {
 		t := t
 		ts = append(ts, w.V.GoNamed(fmt.Sprintf("task%d", i+1), func() {
 			for s := 0; s < 2; s++ {
-				vrt.Boundary("step")
+				if j.Free {
+					vrt.Boundary("step")
+				} else {
+					vrt.Yield("boundary:step")
+				}
 				if w.V.Closing() {
 					return
 				}
@@ -242,14 +248,16 @@ func body(w *world.W, j job, p *prep) {
 	}
 	switch j.Scenario {
 	case "c":
-		ts = append(ts, w.V.GoNamed("env", func() {
+		env := w.V.GoNamed("env", func() {
 			for k := 0; k < 2; k++ {
 				vrt.Yield("env:tick")
 				for _, tk := range w.V.Tickers() {
 					w.V.Tick(tk)
 				}
 			}
-		}))
+		})
+		env.OnlyAt = rpcOrBoundary // a tick only feeds the poller; it commutes with everything but the exchanges
+		ts = append(ts, env)
 	case "d":
 		env := w.V.GoNamed("env", func() {
 			w.SetChain("node1", p.grown, "grow")
@@ -374,12 +382,13 @@ func (l *raceLog) collect(any bool) []report {
 // ---- run -----------------------------------------------------------------------------------------
 
 //go:norace
-func bounds(thorough bool) explore.Bounds {
+func bounds(j job) explore.Bounds {
 	var b explore.Bounds
-	b[0], b[vrt.KPreempt], b[vrt.KOrder] = 1, 1, 1
-	if thorough {
-		b[0], b[vrt.KPreempt], b[vrt.KOrder] = 2, 2, 2
+	n := j.Total
+	if n == 0 {
+		n = 1
 	}
+	b[0], b[vrt.KPreempt], b[vrt.KOrder] = n, n, n
 	return b
 }
 
@@ -409,8 +418,7 @@ func run(c *fw.Ctx) {
 	log.mark()
 	js := jobs(c.Thorough())
 	c.Bound("jobs", len(js))
-	b := bounds(c.Thorough())
-	c.Bound("preemptions", b[vrt.KPreempt])
+	c.Bound("deviations_per_execution", "1 (quick); thorough: 2 for the single-task scenario, 1 plus free step boundaries for the multi-task scenarios")
 	seen := map[string]bool{}
 	for _, j := range js {
 		// every worker explores its share of EVERY job (subtrees of the root execution are dealt round robin)
@@ -423,6 +431,7 @@ func run(c *fw.Ctx) {
 			return
 		}
 		states := vrt.NewStateSet()
+		b := bounds(j)
 		st := explore.ExploreShard(b, true, c.Shard, c.NShards, func(r *explore.Run) bool {
 			res := exec(j, p, r, states, log)
 			if r.Foreign && res.harness == "" && r.Diverged == "" {
@@ -460,6 +469,11 @@ func run(c *fw.Ctx) {
 			return !c.Expired()
 		})
 		c.Res.States += int64(states.Len())
+		if dbg := os.Getenv("C18_DEBUG"); dbg != "" {
+			f, _ := os.OpenFile(dbg, os.O_APPEND|os.O_CREATE|os.O_WRONLY, 0o644)
+			fmt.Fprintf(f, "shard %d job %+v: executions=%d maxdepth=%d complete=%v\n", c.Shard, j, st.Executions, st.MaxDepth, st.Complete)
+			f.Close()
+		}
 		if !st.Complete {
 			c.Cap("time-budget")
 			return
